@@ -35,13 +35,18 @@ KDIjepaMaskCollator = _ijepa_mod.KDIjepaMaskCollator
 LEVEL = "exploration"
 RULE = ("alternating DINO / I-JEPA configurations: grids 3..24 (square and non-square), batch sizes 1..8 (B=1 boosted), "
         "DINO: views 1..3 (x as one tensor, as a list of exactly the configured views, or as a multi-crop list with 1..8 extra local crops of another spatial size), mask_prob from {0, 1, k/(B*views), random}, ratio ranges from {scalar, lo=0, hi=1, k/(H*W) ends, "
-        "random}, min_num_patches 1..8, aspect ranges, histories of 1..4 calls on one collator object with constant / shrinking (last partial batch) / growing / there-and-back / arbitrary batch sizes and every clause applied to every call; I-JEPA: scalar and (h, w) patch sizes with h != w on square and non-square grids / inputs, encoder/predictor scale ranges, aspect ranges, "
+        "random}, min_num_patches 1..8, aspect ranges, histories of 1..4 calls on one collator object with constant / shrinking (last partial batch) / growing / there-and-back / arbitrary batch sizes and every clause applied to every call; reconfiguration histories (public attributes reassigned between calls, clauses judged against the configuration in force at each call, I-JEPA third collator built with the final configuration); I-JEPA: scalar and (h, w) patch sizes with h != w on square and non-square grids / inputs, encoder/predictor scale ranges, aspect ranges, "
         "1..3 encoder and 1..4 predictor masks, min_keep from {0, largest admissible, random}, tries 1..20, classes "
         "{in-domain, relaxation-prone, one-patch predictor block, empty predictor block (encoder size becomes decodable), "
         "library defaults}, three collators per case (different rng seeds, batch sizes, global RNG states; the third is "
         "advanced with step()) called 1..4 times, each with its own batch-size history (same call count = same steps); dataset modes with 1..3 items, with/without per-sample ctx entries; "
         "a case is distinct by its full spec; trivial = return_ctx=False (only the batch pass-through is observable)")
 ASSUMPTIONS = [
+    "reconfiguration histories reassign only the public attributes the collators read at call time on the unchanged tree: DINO mask_ratio "
+    "(as a (lo, hi) pair), mask_prob, num_views, min_num_patches; I-JEPA encoder_mask_scale, predictor_mask_scale, predictor_aspect_ratio, "
+    "num_enc_masks, num_pred_masks, min_keep, tries. Not driven because they are consumed at construction (derived state is built from them): "
+    "DINO mask_size (stored as height/width/num_patches) and min_aspect/max_aspect (stored as log bounds), I-JEPA input_size/patch_size (grid "
+    "stored as seqlen_h/seqlen_w); dataset_mode/return_ctx are not reassigned either. A reassigned value the object does not report back is not judged",
     "row layout of the I-JEPA ctx tensors is (mask j, sample b) -> row j*B+b and indices are row-major r*W+c, as sliced/compared by tests_unit/collators/test_kd_ijepa_mask_collator.py",
     "domain predicate for disjointness uses a harness-side size model: a block of scale s has about s*H*W patches, side lengths "
     "sqrt(area*ar), sqrt(area/ar) rounded by at most 1 and never larger than grid-1; encoder lower bound from the lower end of "
@@ -55,7 +60,7 @@ ASSUMPTIONS = [
     "encoder block size is only observable when the predictor blocks are empty; otherwise the step-only clause is judged on predictor sizes",
     "the ambient-contract layer of DESIGN 1.5 (contracts while the pinned suite runs) is replaced by replaying the two pinned test configurations under the same oracle",
 ]
-MONITORS = ["ijepa_cases_with_nonsquare_patch", "dino_multicrop_calls", "dino_calls_after_batch_size_change", "ijepa_calls_after_batch_size_change", "dino_calls_checked", "dino_nonempty_masks_seen", "ijepa_calls_checked", "ijepa_pred_rectangles_decoded",
+MONITORS = ["dino_calls_after_reconfiguration", "ijepa_calls_after_reconfiguration", "ijepa_cases_with_nonsquare_patch", "dino_multicrop_calls", "dino_calls_after_batch_size_change", "ijepa_calls_after_batch_size_change", "dino_calls_checked", "dino_nonempty_masks_seen", "ijepa_calls_checked", "ijepa_pred_rectangles_decoded",
             "ijepa_disjointness_checked_in_domain", "ijepa_step_size_differential_checked", "ijepa_encoder_size_decoded",
             "batch_passthrough_checked", "step_budget_runs"]
 
@@ -181,6 +186,29 @@ def _gen_dino(rng, quick):
     # spatial size); masks are promised per (sample x CONFIGURED view)
     spec["extra_views"] = rng.choice([0, 0, 1, 2, 4, 6, 8]) if spec["x_form"] == "list" else 0
     spec["extra_size"] = rng.choice([1, 2, 3])
+    # reconfiguration history: public configuration attributes are reassigned between two calls on the same object
+    if calls >= 2 and rng.random() < 0.45:
+        hi = ratio if not isinstance(ratio, list) else ratio[1]
+        reconf = {}
+        for c in sorted(rng.sample(range(1, calls), rng.choice([1, 1, 2]) if calls > 2 else 1)):
+            ch = {}
+            for attr in rng.sample(["mask_ratio", "mask_ratio", "mask_prob", "num_views", "min_num_patches"], rng.choice([1, 1, 2, 3])):
+                if attr == "mask_ratio":
+                    if rng.random() < 0.6:  # a clearly lower range: a stale upper bound becomes visible
+                        b = hi * rng.choice([0.1, 0.25, 0.5])
+                    else:
+                        b = min(_frac(rng, cells), 0.7 if cells > 200 else 1.0)
+                    a = rng.choice([0.0, b, b * rng.random()])
+                    ch["mask_ratio"] = [a, b]
+                    hi = b
+                elif attr == "mask_prob":
+                    ch["mask_prob"] = rng.choice([0.0, 1.0, round(rng.random(), 2), rng.randint(0, n) / n, p / 2])
+                elif attr == "num_views":
+                    ch["num_views"] = rng.choice([v for v in (1, 2, 3) if v != views])
+                else:
+                    ch["min_num_patches"] = rng.choice([1, 2, 4, 8])
+            reconf[str(c)] = ch
+        spec["reconf"] = reconf
     return spec
 
 
@@ -197,58 +225,88 @@ def ijepa_model(spec):
     return enc_lb, pred_ub
 
 
+IJEPA_CFG_KEYS = ("enc_scale", "pred_scale", "pred_ar", "n_enc", "n_pred", "min_keep", "tries")
+IJEPA_ATTR = {"enc_scale": "encoder_mask_scale", "pred_scale": "predictor_mask_scale", "pred_ar": "predictor_aspect_ratio",
+              "n_enc": "num_enc_masks", "n_pred": "num_pred_masks", "min_keep": "min_keep", "tries": "tries"}
+
+
+def _ijepa_cfg(rng, H, W):
+    """one admissible configuration for the grid (or None): dict with IJEPA_CFG_KEYS + cls (+ H, W, kind)"""
+    cells = H * W
+    want = rng.choices(["indomain", "relax", "onepatch", "predempty", "defaults"], weights=[56, 14, 14, 10, 6])[0]
+    if want == "defaults" and (H, W) != (14, 14):
+        want = "indomain"
+    n_enc = rng.choice([1, 1, 2, 3])
+    n_pred = rng.choice([1, 2, 3, 4, 4])
+    elo = rng.choice([0.85, 1.0, round(rng.uniform(0.4, 1.0), 3)])
+    ehi = rng.choice([1.0, elo, round(rng.uniform(elo, 1.0), 3)])
+    ar = rng.choice([[0.75, 1.5], [1.0, 1.0], [0.5, 2.0], [0.3, 3.0], [1.0, 2.0]])
+    spec = {"kind": "ijepa", "H": H, "W": W, "enc_scale": [elo, ehi], "pred_ar": ar, "n_enc": n_enc, "n_pred": n_pred}
+    if want == "defaults":
+        spec.update(enc_scale=[0.85, 1.0], pred_scale=[0.15, 0.2], pred_ar=[0.75, 1.5], n_enc=1, n_pred=4)
+    elif want == "onepatch":
+        c = rng.choice([1.0, 1.0, 1.5, 2.0, 2.5])
+        spec["pred_scale"] = [c / cells + 1e-9, rng.choice([c, c + 0.4]) / cells + 1e-9]
+        spec["pred_ar"] = rng.choice([[1.0, 1.0], [0.75, 1.5], [0.75, 1.25]])
+    elif want == "predempty":
+        hi = rng.choice([0.0, 0.5 / cells, 0.9 / cells])
+        spec["pred_scale"] = [rng.choice([0.0, hi]), hi]
+    else:
+        enc_lb, _ = ijepa_model(dict(spec, pred_scale=[0, 0]))
+        if want == "indomain":
+            top = max(enc_lb / (cells * n_pred) * rng.choice([0.3, 0.5, 0.7]), 1.2 / cells)
+        else:
+            top = rng.choice([0.15, 0.2, 0.3, 0.4])
+        phi = round(rng.uniform(top / 3, top), 4)
+        spec["pred_scale"] = [rng.choice([phi, round(phi * rng.uniform(0.5, 1.0), 4)]), phi]
+    enc_lb, pred_ub = ijepa_model(spec)
+    if enc_lb < 1:
+        return None
+    diff = enc_lb - spec["n_pred"] * pred_ub
+    if want == "indomain" and diff < 1:
+        return None
+    if want == "relax" and diff >= 1:
+        return None
+    if want == "defaults":
+        min_keep = 10 if enc_lb > 10 else 0
+    elif diff >= 1:
+        min_keep = rng.choice([0, diff - 1, diff - 1, rng.randint(0, diff - 1)])
+    else:
+        min_keep = rng.choice([0, enc_lb - 1, rng.randint(0, enc_lb - 1), min(10, enc_lb - 1)])
+    spec.update(cls=want, min_keep=min_keep, tries=rng.choice([20, 20, 1, 2, 5, 10]))
+    return spec
+
+
 def _gen_ijepa(rng, quick):
     for _ in range(60):
         H, W = _grid(rng, quick)
-        cells = H * W
-        want = rng.choices(["indomain", "relax", "onepatch", "predempty", "defaults"], weights=[56, 14, 14, 10, 6])[0]
-        n_enc = rng.choice([1, 1, 2, 3])
-        n_pred = rng.choice([1, 2, 3, 4, 4])
-        elo = rng.choice([0.85, 1.0, round(rng.uniform(0.4, 1.0), 3)])
-        ehi = rng.choice([1.0, elo, round(rng.uniform(elo, 1.0), 3)])
-        ar = rng.choice([[0.75, 1.5], [1.0, 1.0], [0.5, 2.0], [0.3, 3.0], [1.0, 2.0]])
-        spec = {"kind": "ijepa", "H": H, "W": W, "enc_scale": [elo, ehi], "pred_ar": ar, "n_enc": n_enc, "n_pred": n_pred}
-        if want == "defaults":
-            spec.update(H=14, W=14, enc_scale=[0.85, 1.0], pred_scale=[0.15, 0.2], pred_ar=[0.75, 1.5], n_enc=1, n_pred=4)
+        if rng.random() < 0.06:
             H = W = 14
-            cells = 196
-        elif want == "onepatch":
-            c = rng.choice([1.0, 1.0, 1.5, 2.0, 2.5])
-            spec["pred_scale"] = [c / cells + 1e-9, rng.choice([c, c + 0.4]) / cells + 1e-9]
-            spec["pred_ar"] = rng.choice([[1.0, 1.0], [0.75, 1.5], [0.75, 1.25]])
-        elif want == "predempty":
-            hi = rng.choice([0.0, 0.5 / cells, 0.9 / cells])
-            spec["pred_scale"] = [rng.choice([0.0, hi]), hi]
-        else:
-            enc_lb, _ = ijepa_model(dict(spec, pred_scale=[0, 0]))
-            if want == "indomain":
-                top = max(enc_lb / (cells * n_pred) * rng.choice([0.3, 0.5, 0.7]), 1.2 / cells)
-            else:
-                top = rng.choice([0.15, 0.2, 0.3, 0.4])
-            phi = round(rng.uniform(top / 3, top), 4)
-            spec["pred_scale"] = [rng.choice([phi, round(phi * rng.uniform(0.5, 1.0), 4)]), phi]
-        enc_lb, pred_ub = ijepa_model(spec)
-        if enc_lb < 1:
+        cells = H * W
+        spec = _ijepa_cfg(rng, H, W)
+        if spec is None:
             continue
-        diff = enc_lb - spec["n_pred"] * pred_ub
-        if want == "indomain" and diff < 1:
-            continue
-        if want == "relax" and diff >= 1:
-            continue
-        if want == "defaults":
-            min_keep = 10 if enc_lb > 10 else 0
-        elif diff >= 1:
-            min_keep = rng.choice([0, diff - 1, diff - 1, rng.randint(0, diff - 1)])
-        else:
-            min_keep = rng.choice([0, enc_lb - 1, rng.randint(0, enc_lb - 1), min(10, enc_lb - 1)])
         steps = rng.choice([1, 2, 3, 3, 4])
         spec.update(
-            cls=want, min_keep=min_keep, tries=rng.choice([20, 20, 1, 2, 5, 10]), patch=_patch(rng, H, W),
+            patch=_patch(rng, H, W),
             B=[_history(rng, cells, steps), _history(rng, cells, steps), rng.choice([1, 2, 3])], steps=steps,
             mode=rng.choice(MODES), ctx_tags=rng.random() < 0.5, return_ctx=rng.random() < 0.95,
             seeds=[rng.randrange(2 ** 31) for _ in range(3)], g=[rng.randrange(2 ** 31) for _ in range(3)],
             size_form=rng.choice(["int", "tuple"]),
         )
+        # reconfiguration history: public configuration attributes are reassigned (on both compared collators alike)
+        # before one of the later calls; the third collator is constructed with the final configuration
+        if steps >= 2 and rng.random() < 0.4:
+            for _ in range(20):
+                new = _ijepa_cfg(rng, H, W)
+                if new is None:
+                    continue
+                keys = list(IJEPA_CFG_KEYS) if rng.random() < 0.5 else rng.sample(IJEPA_CFG_KEYS, rng.choice([1, 2, 3]))
+                ch = {k: new[k] for k in keys}
+                merged = dict(spec, **ch)
+                if ijepa_model(merged)[0] > merged["min_keep"]:
+                    spec["reconf"] = {str(rng.randint(1, steps - 1)): ch}
+                    break
         return spec
     raise core.Inconclusive("I-JEPA generator found no admissible configuration in 60 attempts")
 
@@ -389,20 +447,42 @@ def _run_dino(run, spec):
     ok, coll = call_real(run, lambda: KDDinoMaskCollator(**kw).set_rng(np.random.default_rng(spec["seed"])), crash_key="dino:ctor-crash", what=what)
     if not ok:
         return
-    max_cells = _int_bounds(rmax, cells, up=True)
-    # logical step budget: at most T blocks per mask (each adds >= 1 cell), a block iterates over at most ~2.5*max(remaining,
-    # min_num_patches) cells and is found within 10 attempts
-    T = max_cells + 1
-    per_mask = sum(3 * max(r, spec["min_num_patches"]) + 60 for r in range(1, T + 1))
+    mnp = spec["min_num_patches"]
+    reconf = spec.get("reconf") or {}
     p_cls = "0" if p == 0 else "1" if p == 1 else "int" if float(p * hist[0] * views).is_integer() else "frac"
     r_cls = "scalar" if not isinstance(ratio, list) else "lo0" if ratio[0] == 0 else "hi1" if ratio[1] == 1 else "eq" if ratio[0] == ratio[1] else "range"
     extra = spec.get("extra_views", 0) if spec["x_form"] == "list" else 0
-    run.cover("dino", "B1" if 1 in hist else "B>1", _hist_class(hist), views, "multicrop" if extra else "plain", p_cls, r_cls, "3" if min(H, W) == 3 else "sq" if H == W else "rect",
+    run.cover("dino", "B1" if 1 in hist else "B>1", _hist_class(hist), views, "multicrop" if extra else "plain",
+              "+".join(sorted({a for ch in reconf.values() for a in ch})) or "fixed-config", p_cls, r_cls, "3" if min(H, W) == 3 else "sq" if H == W else "rect",
               len(spec["mode"].split(" ")), spec["x_form"], spec["return_ctx"])
     for c, B in enumerate(hist):
-        # every per-call clause is applied to every call of the history, with the batch size of THAT call
+        # every per-call clause is applied to every call of the history, with the batch size of THAT call and the
+        # configuration the object has at THAT call
+        ch = reconf.get(str(c))
+        if ch:
+            for attr, val in ch.items():
+                val = tuple(val) if isinstance(val, list) else val
+                setattr(coll, attr, val)
+                if getattr(coll, attr, None) != val:
+                    run.count("reconfigured_attribute_not_reported_back")  # no verdict against a value the object does not report
+                    return
+            if "mask_ratio" in ch:
+                rmax = ch["mask_ratio"][1]
+            p = ch.get("mask_prob", p)
+            views = ch.get("num_views", views)
+            mnp = ch.get("min_num_patches", mnp)
+            if views != spec["views"]:
+                spec = dict(spec, views=views)  # the input carries the configured number of (global) views
+            what += f" | before call {c}: {ch}"
+        if any(int(k) <= c for k in reconf):
+            run.count("dino_calls_after_reconfiguration")
         n = B * views
         max_nonempty = _int_bounds(p, n, up=False)
+        max_cells = _int_bounds(rmax, cells, up=True)
+        # logical step budget: at most T blocks per mask (each adds >= 1 cell), a block iterates over at most
+        # ~2.5*max(remaining, min_num_patches) cells and is found within 10 attempts
+        T = max_cells + 1
+        per_mask = sum(3 * max(r, mnp) + 60 for r in range(1, T + 1))
         limit = 3 * (n * per_mask + 20 * n) + 2000
         if c > 0 and B != hist[c - 1]:
             run.count("dino_calls_after_batch_size_change")
@@ -553,20 +633,32 @@ def _run_ijepa(run, spec):
               tries=spec["tries"], dataset_mode=spec["mode"], return_ctx=spec["return_ctx"])
     base = f"KDIjepaMaskCollator({kw})"
     mk_cls = "mk0" if spec["min_keep"] == 0 else "mkmax" if enc_lb - n_pred * pred_ub - 1 == spec["min_keep"] else "mk"
-    run.cover("ijepa", spec["cls"], in_domain, "sq" if H == W else "rect", "patch-sq" if ph == pw else "patch-tall" if ph > pw else "patch-wide",
+    run.cover("ijepa", "+".join(sorted({a for ch in (spec.get("reconf") or {}).values() for a in ch})) or "fixed-config", spec["cls"], in_domain, "sq" if H == W else "rect", "patch-sq" if ph == pw else "patch-tall" if ph > pw else "patch-wide",
               "input-sq" if H * ph == W * pw else "input-rect", "3" if min(H, W) == 3 else "g", n_enc, n_pred, mk_cls,
               "B1" if 1 in _as_history(spec["B"][0], spec["steps"]) else "B>1", _hist_class(_as_history(spec["B"][0], spec["steps"])),
               spec["return_ctx"])
 
-    def budget(B):
+    def budget(B, cfg):
         # documented relaxation: one constraint is dropped every `tries` failures -> at most n_pred*tries+1 attempts per
         # encoder mask, each touching at most n_pred regions
-        return 3 * (B * n_enc * (n_pred * spec["tries"] + 1) * (n_pred + 2) + B * (3 * (n_pred + n_enc) + 6)) + 300
+        ne, np_ = cfg["n_enc"], cfg["n_pred"]
+        return 3 * (B * ne * (np_ * cfg["tries"] + 1) * (np_ + 2) + B * (3 * (np_ + ne) + 6)) + 300
 
-    def make(i):
+    def make(i, kw=kw):
         GlobalRngSentinel.seed_all(spec["g"][i])
         ok, c = call_real(run, lambda: KDIjepaMaskCollator(**kw).set_rng(np.random.default_rng(spec["seeds"][i])), crash_key="ijepa:ctor-crash", what=base)
         return c if ok else None
+
+    # configuration in force at each call: public attributes are reassigned before the calls named in spec["reconf"]
+    reconf = spec.get("reconf") or {}
+    cfgs, cur = [], spec
+    for s in range(spec["steps"]):
+        if str(s) in reconf:
+            cur = dict(cur, **reconf[str(s)])
+        lb, ub = ijepa_model(cur)
+        if not lb > cur["min_keep"]:
+            raise core.Inconclusive(f"harness: reconfiguration outside the driven domain at call {s}")
+        cfgs.append((cur, lb - cur["n_pred"] * ub > cur["min_keep"], ub))
 
     sizes = []  # per collator: list over steps of (pred_size, enc_size)
     for i in range(2):
@@ -575,38 +667,53 @@ def _run_ijepa(run, spec):
             return
         hist = _as_history(spec["B"][i], spec["steps"])
         mine = []
+        note = ""
         for s, B in enumerate(hist):
-            what = f"{base} batch sizes {hist} rng={spec['seeds'][i]} call {s} (B={B})"
+            cfg, cfg_in_domain, cfg_pred_ub = cfgs[s]
+            if str(s) in reconf:
+                for k, val in reconf[str(s)].items():
+                    val = tuple(val) if isinstance(val, list) else val
+                    setattr(coll, IJEPA_ATTR[k], val)
+                    if getattr(coll, IJEPA_ATTR[k], None) != val:
+                        run.count("reconfigured_attribute_not_reported_back")  # no verdict against a value the object does not report
+                        return
+                note = f" | before call {s}: { {IJEPA_ATTR[k]: v for k, v in reconf[str(s)].items()} }"
+            if note:
+                run.count("ijepa_calls_after_reconfiguration")
+            what = f"{base} batch sizes {hist} rng={spec['seeds'][i]}{note} call {s} (B={B})"
             if s > 0 and B != hist[s - 1]:
                 run.count("ijepa_calls_after_batch_size_change")
-            r = _call(run, coll, spec, B, False, budget(B), what)
+            r = _call(run, coll, spec, B, False, budget(B, cfg), what)
             if r is None:
                 return
             if r[1] is None:
                 run.count("ijepa_calls_without_ctx")
                 continue
-            got = _check_ijepa_ctx(run, spec, r[1], B, what, in_domain, pred_ub)
+            got = _check_ijepa_ctx(run, cfg, r[1], B, what, cfg_in_domain, cfg_pred_ub)
             if got is None:
                 return
             mine.append(got)
         sizes.append(mine)
     if not spec["return_ctx"]:
         return
-    # third collator: advanced to the same step by calling step() itself, then one collation
+    # third collator: constructed with the configuration in force at the last call, advanced to the same step by calling
+    # step() itself, then one collation
     third = None
     if spec["steps"] >= 2:
-        coll = make(2)
+        cfg, cfg_in_domain, cfg_pred_ub = cfgs[-1]
+        kw3 = dict(kw, **{IJEPA_ATTR[k]: (tuple(cfg[k]) if isinstance(cfg[k], list) else cfg[k]) for k in IJEPA_CFG_KEYS})
+        coll = make(2, kw3)
         if coll is None:
             return
         B = spec["B"][2]
-        what = f"{base} B={B} rng={spec['seeds'][2]} after {spec['steps'] - 1} x step()"
+        what = f"KDIjepaMaskCollator({kw3}) B={B} rng={spec['seeds'][2]} after {spec['steps'] - 1} x step()"
         ok, _ = call_real(run, lambda: [coll.step() for _ in range(spec["steps"] - 1)], crash_key="ijepa:step-crash", what=what)
         if not ok:
             return
-        r = _call(run, coll, spec, B, False, budget(B), what)
+        r = _call(run, coll, spec, B, False, budget(B, cfg), what)
         if r is None:
             return
-        third = _check_ijepa_ctx(run, spec, r[1], B, what, in_domain, pred_ub)
+        third = _check_ijepa_ctx(run, cfg, r[1], B, what, cfg_in_domain, cfg_pred_ub)
         if third is None:
             return
     run.count("ijepa_step_size_differential_checked")
@@ -621,8 +728,9 @@ def _run_ijepa(run, spec):
         last = a[spec["steps"] - 1]
         if third[0] != last[0] or (last[1] is not None and third[1] != last[1]):
             run.violation("ijepa:sizes-depend-on-more-than-step",
-                          f"{base}: a collator advanced with {spec['steps'] - 1} x step() emits block sizes {third} at its first call, "
-                          f"a collator at the same step after {spec['steps'] - 1} calls emits {last}")
+                          f"{base}: a collator constructed with the configuration of the last call ({ {k: cfgs[-1][0][k] for k in IJEPA_CFG_KEYS} }) and advanced with "
+                          f"{spec['steps'] - 1} x step() emits block sizes {third} at its first call, the collator at the same step after "
+                          f"{spec['steps'] - 1} calls (reconfigured by {reconf}) emits {last}")
             return
     if len({x[0] for x in a}) > 1:
         run.count("ijepa_pred_size_varied_with_step")
